@@ -183,6 +183,9 @@ pub unsafe extern "C" fn statx(dirfd: c_int, path: *const c_char, flags: c_int, 
     if dirfd != libc::AT_FDCWD && p[0] != b'/' {
         return ret(real()) as c_int;
     }
+    // path-based stat: the repository deliberately ignores its errors while listing a directory
+    // ("ignore errors" in sorted_fileids), and read-side failures lie outside C20's quantifier
+    // (write, create, fsync, unlink) anyway: scheduling point only, never a fault point
     ret(fsim::hook_read_side(IoOp::Stat, -1, Some(p), false, real)) as c_int
 }
 
@@ -407,4 +410,50 @@ pub unsafe extern "C" fn getrandom(buf: *mut c_void, len: size_t, flags: c_uint)
         return len as ssize_t;
     }
     libc::syscall(libc::SYS_getrandom, buf, len, flags) as ssize_t
+}
+
+// ---- read-side calls that only matter as fault points (C20, read faults) -------------------------
+
+#[no_mangle]
+pub unsafe extern "C" fn read(fd: c_int, buf: *mut c_void, count: size_t) -> ssize_t {
+    let real = || raw(libc::syscall(libc::SYS_read, fd, buf, count));
+    if !interesting() || fd < 3 {
+        return ret(real()) as ssize_t;
+    }
+    ret(fsim::hook_read_side(IoOp::Read, fd, None, true, real)) as ssize_t
+}
+
+type OpenDirFn = unsafe extern "C" fn(*const c_char) -> *mut libc::DIR;
+
+#[no_mangle]
+pub unsafe extern "C" fn opendir(path: *const c_char) -> *mut libc::DIR {
+    static mut REAL: Option<OpenDirFn> = None;
+    let real = match REAL {
+        Some(f) => f,
+        None => {
+            let p = libc::dlsym(libc::RTLD_NEXT, b"opendir\0".as_ptr() as *const c_char);
+            assert!(!p.is_null());
+            let f: OpenDirFn = std::mem::transmute(p);
+            REAL = Some(f);
+            f
+        }
+    };
+    if !interesting() || path.is_null() {
+        return real(path);
+    }
+    let p = CStr::from_ptr(path).to_bytes();
+    let mut out: *mut libc::DIR = std::ptr::null_mut();
+    let r = fsim::hook_read_side(IoOp::OpenDir, -1, Some(p), true, || {
+        out = real(path);
+        if out.is_null() {
+            -(*libc::__errno_location() as i64)
+        } else {
+            0
+        }
+    });
+    if r < 0 {
+        set_errno((-r) as i32);
+        return std::ptr::null_mut();
+    }
+    out
 }
